@@ -450,6 +450,18 @@ class StmtMixin:
 
     def instantiate(self, cls, args, kwargs, use_summary=True):
         if cls.is_enum(self.repo):
+            if "names" in kwargs or len(args) >= 2:
+                # functional Enum API: Base(value="Name", names=[[member, value], ...]) creates a new enum class
+                from .repo import ClassInfo
+                cname = kwargs.get("value", args[0] if args else "DynEnum")
+                names = kwargs.get("names", args[1] if len(args) > 1 else [])
+                node = ast.parse(f"class {cname}({cls.name}):\n    pass").body[0]
+                dyn = ClassInfo(node, cls.module)
+                for pair in names:
+                    nm, val = pair[0], pair[1]
+                    dyn.class_assigns[nm] = ast.Constant(value=val)
+                    dyn.member_order.append(nm)
+                return ClassRef(dyn)
             return self.enum_from_value(cls, args[0])
         if cls.is_exception(self.repo):
             return PyExc(cls.name)
